@@ -1,6 +1,6 @@
 (* Dispatcher for C18: run the stochastic-model functions of Model/Noise.v on an encoded case.
    Arrays are over the rationals: nr nc then row-major (numerator, denominator) pairs. *)
-From LV Require Import Lib.Codec Model.Noise.
+From LV Require Import Lib.Codec Model.Noise Model.NoiseEntry.
 Require Import ExtrOcamlBasic.
 
 Definition parrQ : parser (arr QS) :=
@@ -21,7 +21,51 @@ Definition pdeposit : parser (deposit QS) :=
 
 Definition Qisz (x : QS) : bool := Qc_eq_bool x 0%Qc.
 
-Definition run_one (inp : list Z) : list Z :=
+(* ---- entry points (Model/NoiseEntry.v) ---- *)
+Definition pseed : parser seed :=
+  t <- pZ ;;
+  if t =? 0 then z <- pZ ;; pret (SeedInt z)
+  else if t =? 1 then l <- plist pZ ;; pret (SeedList l)
+  else pret SeedFloat.
+Definition pshape : parser shape_arg :=
+  t <- pZ ;; if t =? 0 then k <- pZ ;; pret (ShapeInt k) else l <- plist pZ ;; pret (ShapeDims l).
+Definition qnth (l : list Qc) (k : Z) : Qc := if k <? 0 then 0%Qc else nth (Z.to_nat k) l 0%Qc.
+Definition enframe (f : nframe) : list Z :=
+  let n := numel (fdims f) in
+  elist (fun d => [d]) (fdims f) ++ map (fun k => fget f (Z.of_nat k)) (seq 0 (Z.to_nat n)).
+Definition pray : parser (@ray QS) :=
+  u <- pQ ;; segs <- plist (r <- pZ ;; c <- pZ ;; d <- pQ ;; pret (r, c, d)) ;; pret (@mkRay QS u segs).
+Definition Qgt09 (u : QS) : bool := Qcltb (Q2Qc (9 # 10)) u.
+
+Definition run_entry (inp : list Z) : option (list Z) :=
+  match inp with
+  | 8 :: rest =>      (* shot_noise entry: method string, seed, img, draw *)
+    match pall (m <- plist pZ ;; s <- pseed ;; i <- parrQ ;; d <- parrQ ;; pret (m, s, i, d)) rest with
+    | Some (m, s, img, draw) => Some (eresult earrZ (shot_noise_entry (fun _ _ => draw) img img m s))
+    | None => Some emalformed end
+  | 9 :: rest =>      (* read_noise entry: seed, img, electrons, draw *)
+    match pall (s <- pseed ;; i <- parrQ ;; e <- pQ ;; d <- parrQ ;; pret (s, i, e, d)) rest with
+    | Some (s, img, e, draw) => Some (eresult earrQ (read_noise_entry (fun _ _ => draw) img e s))
+    | None => Some emalformed end
+  | 10 :: rest =>     (* dark_current entry: rate, shape form, fpn_factor, seed, flat draw *)
+    match pall (r <- pQ ;; sh <- pshape ;; f <- pQ ;; s <- pseed ;; d <- plist pQ ;; pret (r, sh, f, s, d)) rest with
+    | Some (r, sh, f, s, d) => Some (eresult enframe (dark_current_entry (fun _ _ => qnth d) r sh f s))
+    | None => Some emalformed end
+  | 11 :: rest =>     (* power_spectrum entry: seed, mask.shape, filt, mask, rms, value of np.sqrt(count/ss) *)
+    match pall (s <- pseed ;; dm <- plist pZ ;; f <- parrQ ;; k <- parrQ ;; r <- pQ ;; v <- pQ ;; pret (s, dm, f, k, r, v)) rest with
+    | Some (s, dm, f, k, r, v) =>
+        Some (eresult (eopt earrQ) (power_spectrum_entry Qisz (fun _ _ => v) (fun _ => f) dm k r s))
+    | None => Some emalformed end
+  | 12 :: n :: m :: rest =>     (* cosmic_rays entry: x, u, fluxes, candidate rays *)
+    match pall (x <- pQ ;; u <- pQ ;; a <- pQ ;; p <- pQ ;; rs <- plist pray ;; pret (x, u, a, p, rs)) rest with
+    | Some (x, u, a, p, rs) =>
+        let '(fr, draws) := cosmic_rays_entry (S := QS) Qgt09 n m x u a p rs in
+        Some (eresult earrQ fr ++ [draws; nrays x u])
+    | None => Some emalformed end
+  | _ => None
+  end.
+
+Definition run_kernel (inp : list Z) : list Z :=
   match inp with
   | 1 :: rest =>      (* shot_noise, method='poisson': img, draw *)
     match pall (ppair parrQ parrQ) rest with
@@ -52,6 +96,9 @@ Definition run_one (inp : list Z) : list Z :=
     | None => emalformed end
   | _ => emalformed
   end.
+
+Definition run_one (inp : list Z) : list Z :=
+  match run_entry inp with Some r => r | None => run_kernel inp end.
 
 (* a call sequence: [len_1; case_1...; len_2; case_2...; ...] -> [len(out_1); out_1...; len(out_2); ...]
    (the model has no state: every call of a sequence is answered on its own) *)
